@@ -10,9 +10,9 @@ import (
 	"strconv"
 )
 
-func init() { structureExtractors["registry_unmarshal"] = extractRegistryUnmarshal }
+func init() { structureExtractors["registry_unmarshal_c09"] = extractRegistryUnmarshalC09 }
 
-func extractRegistryUnmarshal(m *modCtx, sc StructureCfg) {
+func extractRegistryUnmarshalC09(m *modCtx, sc StructureCfg) {
 	f := parseRepoFile(m, sc.File)
 	// const prefixSize = N
 	psize := -1
